@@ -66,6 +66,11 @@ def run(ctx) -> None:
     ctx.assume("list.sort / sorted are stable and keep equal elements in input order also with reverse=True")
     ctx.assume("heapq maintains a min-heap using only < on entries; tuple comparison uses == to find the first "
                "differing component, then <")
+    # the tables first: where a shape rule below does not find the statements it reads (a differently written
+    # implementation), the property's clause is still decided by the table of that function - the shape rule then
+    # only notes that it does not apply, provided the table decided all its cells
+    from . import tooltables
+    tooltables.aggregate_tables(ctx, "R02.8")
     r02_1(ctx)
     r02_2(ctx)
     r02_3(ctx)
@@ -101,8 +106,6 @@ def run(ctx) -> None:
     ctx.rule("R02.13", "a key / reduction function is used whatever its truth value (a callable object may be falsy): whether one was "
                        "given is decided by `is None` (R03.12, shared)")
     c03.r03_12(Relabel(ctx, "R02.13"), modules=("builtins", "heapq", "functools", "_core"))
-    from . import tooltables
-    tooltables.aggregate_tables(ctx, "R02.8")
     ctx.floor("agg_cells_decided", 700)
     ctx.floor("guard_cells", 6)  # (one comparison loop x {LT, EQ, GT} x {min, max}; the library has two loops today)
     ctx.floor("aggregations", 15)
@@ -567,6 +570,10 @@ def r02_5(ctx) -> None:
     node = u.node
     sorts = [n for n in own_nodes(node) if isinstance(n, ast.Call) and (
         (isinstance(n.func, ast.Attribute) and n.func.attr == "sort") or norm(n.func).endswith("sorted"))]
+    if not sorts and ctx.census.get("decided:builtins.sorted", 0) >= 150:
+        ctx.note("R02.5: no call of list.sort / sorted is found in this shape of sorted; what it returns (ties in input order in "
+                 "both directions) is decided by its table R02.8 alone")
+        return
     ctx.check(len(sorts) >= 1, "R02.5", u, "sorted", "sorted delegates to a stable library sort")
     for s in sorts:
         kws = {k.arg: k.value for k in s.keywords}
@@ -701,7 +708,11 @@ def r02_6(ctx) -> None:
                 if defs and all(fetched(d) for d in defs):
                     ok = True
                     fold_target = tgt.id
-    ctx.check(ok, "R02.6", u, "reduce", "reduce folds function(accumulator, item) in that order, re-binding the accumulator")
+    if not ok and fold_target is None and ctx.census.get("decided:functools.reduce", 0) >= 8:
+        ctx.note("R02.6: no statement `acc = await f(acc, item)` is found in this shape of reduce; the order of its calls and "
+                 "its result are decided by its table R02.8 alone")
+    else:
+        ctx.check(ok, "R02.6", u, "reduce", "reduce folds function(accumulator, item) in that order, re-binding the accumulator")
     # the seed: the accumulator's definitions before the loop are exactly {initial, first item}
     acc = fold_target
     seeds = set()
